@@ -276,7 +276,7 @@ def normalize(model):
         notes.append("%d endless loop(s) with leading break guards rewritten as while loops" % ngl)
     cands = {}
     for key, f in model.funcs.items():
-        if not f.static or f.in_header or f.name in known:
+        if not f.static or f.name in known:
             continue
         rel = model.rel(f.file) or ""
         if not rel.startswith(("src/", "include/")):
